@@ -148,7 +148,7 @@ Proof.
   - destruct (r =? 47).
     + replace (write_runes [42; 47] (pre_q pre s1)) with (pre_q pre (write_runes [42; 47] s1)) by (destruct s1; reflexivity).
       rewrite dump_as_pre, append_token_pre. destruct s1; reflexivity.
-    + destruct s1; reflexivity.
+    + destruct (r =? 42); destruct s1; reflexivity.
   - apply lex_builtin_pre.
   - destruct (r =? 92); [destruct s1; reflexivity|].
     destruct (r =? 39).
@@ -176,3 +176,155 @@ Proof. intros s; ds s; unfold pre_q; simpl; rewrite app_nil_r; reflexivity. Qed.
 Lemma lex_all_emptied : forall s text,
   lex_all s text = lres_map (pre_q (l_tokens s)) (lex_all (set_tokens [] s) text).
 Proof. intros s text. rewrite <- lex_all_pre, pre_q_empty; reflexivity. Qed.
+
+(* ---- the last token: after the final newline of a complete text no atom is pending ---- *)
+
+(* invariant of every reachable lexer state: the one-rune operator mode is entered with an empty buffer *)
+Definition binv (s : lstate) : Prop := l_state s = LBuiltinOperator -> l_buffer s = [].
+
+Lemma dump_buffer_empty : forall s s', dump_buffer s = Some s' -> l_buffer s' = [] /\ l_state s' = l_state s.
+Proof.
+  intros s s' H; ds s; unfold dump_buffer in H; simpl in H.
+  destruct bf as [|x bf']; [inversion H; subst; split; reflexivity|].
+  destruct (decode_atom (x :: bf')); inversion H; subst; split; reflexivity.
+Qed.
+
+Ltac crunch2 :=
+  repeat (match goal with
+          | |- context [if ?c then _ else _] => destruct c
+          | |- context [match ?l with [] => _ | _ :: _ => _ end] => destruct l
+          | |- context [match decode_atom ?x with _ => _ end] => destruct (decode_atom x)
+          | |- context [match escape_char ?x with _ => _ end] => destruct (escape_char x)
+          end; simpl).
+
+Lemma lex_normal_binv : forall s r s', l_state s = LNormal -> lex_normal s r = LOk s' -> binv s'.
+Proof.
+  intros s r s' Hst; ds s; simpl in Hst; subst st. unfold lex_normal, with_dump, dump_buffer, append_token, write_rune, twoback; simpl.
+  crunch2; intros H; inversion H; subst; clear H; unfold binv; simpl; intros; try discriminate; reflexivity.
+Qed.
+
+Lemma lex_builtin_binv : forall s r s', l_buffer s = [] -> lex_builtin s r = LOk s' -> binv s'.
+Proof.
+  intros s r s' Hb. unfold lex_builtin.
+  destruct ((l_prevrune (set_state LNormal s) =? 45) && _ && _).
+  - intros H; inversion H; subst; unfold binv; ds s; simpl; discriminate.
+  - destruct (re_match re_BuiltinOpRegex _).
+    + intros H; inversion H; subst; unfold binv; ds s; simpl; discriminate.
+    + apply lex_normal_binv. ds s; reflexivity.
+Qed.
+
+Lemma lex_rune_binv : forall s r s', binv s -> lex_rune s r = LOk s' -> binv s'.
+Proof.
+  intros s r s' Hinv. unfold lex_rune.
+  assert (binv (ring_push r s)) as Hinv1 by (ds s; exact Hinv).
+  set (s1 := ring_push r s) in *. clearbody s1.
+  destruct (l_state s1) eqn:Est.
+  - apply lex_normal_binv; exact Est.
+  - destruct (r =? 10); intros H; inversion H; subst; unfold binv; destruct s1; simpl in *; intros; discriminate || congruence.
+  - destruct (r =? 92); [|destruct (r =? 34)]; intros H; inversion H; subst; unfold binv; destruct s1; simpl in *; intros; discriminate || congruence.
+  - destruct (escape_char r); intros H; inversion H; subst; unfold binv; destruct s1; simpl in *; intros; discriminate.
+  - destruct (r =? 64); [intros H; inversion H; subst; unfold binv; destruct s1; simpl; discriminate|apply lex_normal_binv; destruct s1; reflexivity].
+  - destruct (r =? 96); intros H; inversion H; subst; unfold binv; destruct s1; simpl in *; intros; discriminate || congruence.
+  - unfold lex_freshassign, with_dump.
+    destruct (r =? 61).
+    + destruct (dump_buffer _) as [s2|] eqn:D; [|discriminate]. apply dump_buffer_empty in D.
+      intros H; inversion H; subst; unfold binv; destruct s2; simpl in *. destruct D as [_ D]. destruct s1; simpl in *. intros; congruence.
+    + destruct (slice_bound _); (destruct (dump_buffer _) as [s2|] eqn:D; [|discriminate]);
+        apply dump_buffer_empty in D; destruct D as [_ D]; apply lex_normal_binv.
+      * destruct s2; destruct s1; simpl in *; exact D.
+      * destruct s2; destruct s1; simpl in *; exact D.
+  - unfold lex_firstslash, with_dump.
+    destruct (r =? 47); [|destruct (r =? 42)];
+      (destruct (dump_buffer _) as [s2|] eqn:D; [|discriminate]); apply dump_buffer_empty in D; destruct D as [D1 D2].
+    + intros H; inversion H; subst; unfold binv; destruct s2; simpl in *; intros; discriminate.
+    + intros H; inversion H; subst; unfold binv; destruct s2; simpl in *; intros; discriminate.
+    + apply lex_builtin_binv; exact D1.
+  - destruct (r =? 10); [|destruct (r =? 42)]; intros H; inversion H; subst; unfold binv; destruct s1; simpl in *; intros; discriminate || congruence.
+  - destruct (r =? 47); [|destruct (r =? 42)]; intros H; inversion H; subst; unfold binv; destruct s1; simpl in *; intros; discriminate || congruence.
+  - apply lex_builtin_binv. apply Hinv1; exact Est.
+  - destruct (r =? 92); [|destruct (r =? 39)].
+    + intros H; inversion H; subst; unfold binv; destruct s1; simpl in *; intros; discriminate.
+    + destruct (dump_buffer _) as [s2|] eqn:D; intros H; inversion H; subst; unfold binv.
+      * apply dump_buffer_empty in D. destruct s2; simpl in *; intros; discriminate.
+      * destruct s1; simpl in *; intros; discriminate.
+    + intros H; inversion H; subst; unfold binv; destruct s1; simpl in *; intros; congruence.
+  - destruct (escape_char r); intros H; inversion H; subst; unfold binv; destruct s1; simpl in *; intros; discriminate.
+Qed.
+
+Lemma lex_all_binv : forall text s s', binv s -> lex_all s text = LOk s' -> binv s'.
+Proof.
+  induction text as [|r t IH]; intros s s' Hinv H; simpl in H.
+  - inversion H; subst; exact Hinv.
+  - destruct (lex_rune s r) as [s1|s1] eqn:E; [|discriminate].
+    eapply IH; [eapply lex_rune_binv; eauto|exact H].
+Qed.
+
+Lemma init_binv : binv init_lstate.
+Proof. unfold binv; simpl; discriminate. Qed.
+
+Local Transparent escape_char re_match.
+Lemma esc_nl : escape_char 10 = None. Proof. vm_compute; reflexivity. Qed.
+Lemma neg_nl_float : re_match re_FloatRegex [45; 10] = false. Proof. vm_compute; reflexivity. Qed.
+Lemma neg_nl_dec : re_match re_DecimalRegex [45; 10] = false. Proof. vm_compute; reflexivity. Qed.
+Local Opaque escape_char re_match.
+
+Lemma lex_normal_nl : forall s s', l_state s = LNormal -> lex_normal s 10 = LOk s' ->
+  l_state s' = LNormal /\ l_buffer s' = [].
+Proof.
+  intros s s' Hst. unfold lex_normal. cbn [Z.eqb Pos.eqb orb andb].
+  unfold with_dump. destruct (dump_buffer _) as [s2|] eqn:D; [|discriminate].
+  apply dump_buffer_empty in D. destruct D as [D1 D2].
+  intros H; inversion H; subst. split; [rewrite D2; ds s; exact Hst|exact D1].
+Qed.
+
+Lemma lex_builtin_nl : forall s s', l_buffer s = [] -> lex_builtin s 10 = LOk s' ->
+  l_state s' = LNormal /\ l_buffer s' = [].
+Proof.
+  intros s s' Hb. unfold lex_builtin.
+  destruct (l_prevrune (set_state LNormal s) =? 45) eqn:E45.
+  - apply Z.eqb_eq in E45. rewrite E45, neg_nl_float, neg_nl_dec. rewrite andb_false_r.
+    destruct (re_match re_BuiltinOpRegex _).
+    + intros H; inversion H; subst; ds s; simpl in *; split; [reflexivity|exact Hb].
+    + apply lex_normal_nl. ds s; reflexivity.
+  - cbn [andb]. destruct (re_match re_BuiltinOpRegex _).
+    + intros H; inversion H; subst; ds s; simpl in *; split; [reflexivity|exact Hb].
+    + apply lex_normal_nl. ds s; reflexivity.
+Qed.
+
+(* after a newline: either the lexer is inside a string / raw string / block comment / rune
+   literal, or it is in normal mode with nothing pending in the atom buffer *)
+Lemma lex_rune_nl : forall s s', binv s -> lex_rune s 10 = LOk s' -> l_state s' = LNormal -> l_buffer s' = [].
+Proof.
+  intros s s' Hinv. unfold lex_rune.
+  assert (binv (ring_push 10 s)) as Hinv1 by (ds s; exact Hinv).
+  set (s1 := ring_push 10 s) in *. clearbody s1.
+  destruct (l_state s1) eqn:Est.
+  - intros H _. apply (lex_normal_nl s1 s' Est H).
+  - cbn [Z.eqb Pos.eqb]. intros H; inversion H; subst. destruct s1; reflexivity.
+  - cbn [Z.eqb Pos.eqb]. intros H; inversion H; subst. destruct s1; simpl in *; intros; congruence.
+  - rewrite esc_nl; discriminate.
+  - cbn [Z.eqb Pos.eqb]. intros H _. eapply lex_normal_nl; [|exact H]. destruct s1; reflexivity.
+  - cbn [Z.eqb Pos.eqb]. intros H; inversion H; subst. destruct s1; simpl in *; intros; congruence.
+  - unfold lex_freshassign, with_dump. cbn [Z.eqb Pos.eqb].
+    destruct (slice_bound _); (destruct (dump_buffer _) as [s2|] eqn:D; [|discriminate]);
+      apply dump_buffer_empty in D; destruct D as [_ D]; intros H _.
+    + eapply lex_normal_nl; [|exact H]. destruct s2; destruct s1; simpl in *; exact D.
+    + eapply lex_normal_nl; [|exact H]. destruct s2; destruct s1; simpl in *; exact D.
+  - unfold lex_firstslash, with_dump. cbn [Z.eqb Pos.eqb].
+    destruct (dump_buffer _) as [s2|] eqn:D; [|discriminate]. apply dump_buffer_empty in D. destruct D as [D1 _].
+    intros H _. apply (lex_builtin_nl s2 s' D1 H).
+  - cbn [Z.eqb Pos.eqb]. intros H; inversion H; subst. destruct s1; simpl in *; intros; congruence.
+  - cbn [Z.eqb Pos.eqb]. intros H; inversion H; subst. destruct s1; simpl in *; intros; congruence.
+  - intros H _. apply (lex_builtin_nl s1 s' (Hinv1 Est) H).
+  - cbn [Z.eqb Pos.eqb]. intros H; inversion H; subst. destruct s1; simpl in *; intros; congruence.
+  - rewrite esc_nl; discriminate.
+Qed.
+
+Theorem last_token_kept : forall text s',
+  lex_all init_lstate (text ++ [10]) = LOk s' -> l_state s' = LNormal -> l_buffer s' = [].
+Proof.
+  intros text s' H Hst. rewrite lex_all_app in H.
+  destruct (lex_all init_lstate text) as [s|s] eqn:E; [|discriminate].
+  simpl in H. destruct (lex_rune s 10) as [s2|s2] eqn:E2; [|discriminate]. inversion H; subst.
+  eapply lex_rune_nl; [eapply lex_all_binv; [apply init_binv|exact E]|exact E2|exact Hst].
+Qed.
